@@ -1260,6 +1260,9 @@ class Interp:
         if self.ctx.merge_mode:
             if isinstance(obj, PDict) and not isinstance(key, (SV, Opaque)) and len(self.ctx.merge_guards) == self.ctx.merge_mode:
                 # store into a dict inside a speculatively executed branch: a guarded update (undone if the merge is abandoned)
+                if type(val).__name__ in ("Arr", "Cat", "Rows", "ndarray", "Series", "MappedKeys") or getattr(val, "is_group_keys", False) \
+                        or getattr(val, "no_identity_merge", False):
+                    raise CannotMerge()         # arrays are not merged by identity: the branch is explored on its own path
                 old = list(obj.e[key]) if key in obj.e else None
                 self.ctx.undo.append((obj, key, old))
                 try:
